@@ -78,6 +78,12 @@ func bannerFree(c Case) Case {
 // all banner placements for one physical line
 func placements(line string, offsets []int) []Behav {
 	l := []Behav{{Form: "A", Pad: 0}, {Form: "A", Pad: 2}, {Form: "C", Pad: 0}, {Form: "C", Pad: 2}, {Form: "D"}}
+	// after the complete last line: 3, 4, 5 empty lines in front of BEL, 0, 1, 2 behind the banner
+	for pre := 0; pre <= 2; pre++ {
+		for post := 0; post <= 2; post++ {
+			l = append(l, Behav{Form: "E", Pad: pre, Post: post})
+		}
+	}
 	for _, o := range offsets {
 		l = append(l, Behav{Form: "B", Off: o})
 	}
@@ -146,7 +152,9 @@ func genRandom(r *RNG, n int) []Case {
 			}
 			if r.Chance(35) {
 				b.Msg = Pick(r, []string{msg2, msg1, msg1, msg01, msgA})
-				switch r.Intn(4) {
+				switch r.Intn(5) {
+				case 4:
+					b.Form, b.Pad, b.Post = "E", r.Intn(3), r.Intn(3)
 				case 0:
 					b.Form, b.Pad = "A", r.Intn(4)
 				case 1:
@@ -323,6 +331,32 @@ func genFixed(every int) []Case {
 			cases = append(cases, Case{Device: dev, Target: tgt, NoAsk: na,
 				Behav:   map[string]Behav{lines[1]: {Form: "B", Off: 3, Msg: msg1}},
 				Special: map[string][]string{"do reload in 2": {rq}}, SpecialIsBanner: "one-prompt"})
+		}
+	}
+	return cases
+}
+
+// genAfterLine: the banner follows the COMPLETE last line of echo/output (line end included) and is
+// followed by the prompt after 0, 1 or 2 empty lines; 3, 4 or 5 empty lines in front of BEL; every
+// banner kind; with and without output.  (`pre = 0, post = 0`: "cmd CRLF, three empty lines, BEL,
+// banner, prompt" — the rendering in which a greedy `\n{3,}` in bannerRe eats the echo's line end.)
+func genAfterLine() []Case {
+	var cases []Case
+	dev, tgt := buildBase("ar")
+	lines := physLines(dev, tgt)
+	for li, l := range lines {
+		if li == 0 {
+			continue // first half of the joined line: probing placement, finding F-C15b
+		}
+		for _, m := range []string{msg2, msg1, msg01, msgA} {
+			for _, out := range []string{"", "INFO: ignored text\n"} {
+				for pre := 0; pre <= 2; pre++ {
+					for post := 0; post <= 2; post++ {
+						cases = append(cases, Case{Device: dev, Target: tgt, NoAsk: (pre+post)%2 == 1,
+							Behav: map[string]Behav{l: {Form: "E", Pad: pre, Post: post, Msg: m, Out: out}}})
+					}
+				}
+			}
 		}
 	}
 	return cases
